@@ -324,7 +324,7 @@ func compareSeq(table, index, comp, ordComp, pk string, seq Seq, want []Item, rn
 		for i, it := range seq.Items {
 			ss[i] = it.Canon()
 		}
-		out = append(out, Diff{table, ordComp, index, fmt.Sprintf("Query %s not in sort-key order (backward=%v): %s", pk, back, brief(ss))})
+		out = append(out, Diff{table, ordComp, index, fmt.Sprintf("Query %s not in sort-key order (backward=%v, sort key type %s): %s", pk, back, rng.Type, brief(ss))})
 	}
 	if seq.LEK {
 		out = append(out, Diff{table, comp, index, "Query " + pk + " without Limit returned a LastEvaluatedKey"})
